@@ -145,12 +145,14 @@ SRC_TIE = {
             'Writer': ['VbsWriter.write', 'VbsWriter.close', 'VbsWriter.__exit__'],
             'RoundTrip': ['VbsWriter.write', 'VbsWriter.write_many', 'VbsWriter.close', 'VbsReader.__next__'],
             'Blocked': ['Block1014F_write', 'Block1014F_finalise', 'Block1014F_seek', 'VbsWriterB_write', 'VbsWriterB_close',
-                        'VbsReaderB_next', 'Unblock1014.read']},
+                        'VbsWriterB_exit', 'VbsReaderB_next', 'Unblock1014.read']},
     'C06': {'IpmRoundTrip': ['IpmWriter.write', 'IpmWriter.write_many', 'IpmReader.__next__', 'VbsWriter.write',
                              'VbsWriter.close', 'VbsReader.__next__'],
             'IpmBlocked': ['IpmWriterB_write', 'IpmReaderB_next', 'VbsWriterB_write', 'VbsWriterB_close', 'VbsReaderB_next',
                            'Block1014F_write', 'Block1014F_seek', 'Unblock1014.read']},
-    'C11': {'Writer': ['VbsWriter.write', 'VbsWriter.close', 'VbsWriter.__exit__']},
+    'C11': {'Writer': ['VbsWriter.write', 'VbsWriter.close', 'VbsWriter.__exit__'],
+            'Blocked': ['Block1014F_write', 'Block1014F_finalise', 'Block1014F_seek', 'VbsWriterB_write', 'VbsWriterB_close',
+                        'VbsWriterB_exit']},
     'C09': {'Reader': ['VbsReader.__next__']},
     'C10': {'Reader': ['VbsReader.__next__'], 'IpmReader': ['IpmReader.__next__', 'VbsReader.__next__']},
     'C04': {'Block': ['Block1014.write', 'Block1014.finalise'], 'OneShot': ['block_1014', 'unblock_1014']},
